@@ -89,7 +89,7 @@ func (e *Engine) havocResults(st *State, sig *types.Signature, prefix string) []
 	for i := 0; i < res.Len(); i++ {
 		t := res.At(i).Type()
 		ts := freshTerms(prefix, t)
-		st.assume(wfAssumptions(ts, t, false))
+		st.assume(wfAssumptions(ts, t, true))
 		out[i] = e.unflat(ts, t)
 	}
 	return out
@@ -123,6 +123,18 @@ func (e *Engine) finishCall(fr *Frame, st *State, nf *Frame, args []Value, site 
 		}
 		vals[k] = acc
 	}
+	// stack arrays of the callee are dead now: drop their writes from the chains
+	if len(nf.localRegions) > 0 {
+		dead := map[uint64]bool{}
+		for _, r := range nf.localRegions {
+			dead[r] = true
+		}
+		for name, mm := range m.mems {
+			if len(mm.ksort) == 2 {
+				m.mems[name] = stripRegions(mm, dead, nf.firstMemID-64, map[*Mem]*Mem{})
+			}
+		}
+	}
 	// drop the callee's cells
 	for k := range m.cells {
 		if k.frame == nf.id {
@@ -151,7 +163,7 @@ var intrinsicNames = map[string]bool{
 	"vRequires": true, "vEnsures": true, "vAssert": true, "vAssume": true, "vForall": true, "vExists": true,
 	"vSameRegion": true, "vOffset": true, "vModifiesBytes": true, "vModifiesAll": true, "vFresh": true,
 	"vCanary": true, "vAllocs": true, "vUnreachable": true, "vModifiesObj": true, "vNoAlias": true, "vOpaque": true,
-	"vModifiesNothing": true, "vBorrowed": true, "vIsFreshRegion": true, "vModifiesHeap": true, "vStrictLen": true, "vModifiesMems": true,
+	"vModifiesNothing": true, "vBorrowed": true, "vIsFreshRegion": true, "vModifiesHeap": true, "vStrictLen": true, "vModifiesMems": true, "vReveal": true,
 }
 
 func (e *Engine) callStatic(fr *Frame, st *State, callee *ssa.Function, args []Value, site ssa.Instruction) []Value {
@@ -184,6 +196,16 @@ func (e *Engine) callStatic(fr *Frame, st *State, callee *ssa.Function, args []V
 	}
 	if ext := e.extern(fr, st, callee, args, site); ext != nil {
 		return ext
+	}
+	if strings.HasPrefix(name, "verif_lemma_") {
+		// lemma application: its requires become obligations here, its conclusions are assumed
+		nf := e.newFrame(callee, fr)
+		nf.spec = true
+		nf.quiet = true
+		nf.prefix = fr.prefix
+		nf.hctx = &harnessCtx{mode: modeApply, caller: fr, site: site, name: callee.Name()}
+		e.usedLemmas[callee.Name()] = true
+		return e.finishCall(fr, st, nf, args, site)
 	}
 	if hn, ok := e.contracts[callee]; ok && !fr.inlineContracts {
 		return e.applyContract(fr, st, hn, callee, args, site)
@@ -230,7 +252,7 @@ func (e *Engine) abstractPolicy(fr *Frame, callee *ssa.Function) string {
 		return ""
 	}
 	switch to {
-	case "net/netip", "encoding/binary", "math/bits":
+	case "net/netip", "encoding/binary", "math/bits", "internal/byteorder":
 		return ""
 	}
 	return fmt.Sprintf("%s.%s abstracted (outside the repository: assumed total, no effect on modelled state, arbitrary result)", to, fnName2(callee))
@@ -427,6 +449,11 @@ func (e *Engine) intrinsic(fr *Frame, st *State, callee *ssa.Function, args []Va
 		// variadic string constants: the argument is a slice of string literals
 		pats := e.stringSliceConsts(st, args[0])
 		h.modifies = append(h.modifies, modClause{kind: "mems", pats: pats})
+		return nil
+	case "vReveal":
+		if h != nil && h.mode == modeVerify {
+			e.reveal = true
+		}
 		return nil
 	case "vStrictLen":
 		if h != nil {
